@@ -10,6 +10,7 @@ THEOREMS = [
     "cursor_correct",
     "install_refines",
     "install_empty",
+    "nth_eq_scan",
     "getters_eq_scan",
     "getters_after_history",
     "interface_algorithms_agree",
